@@ -206,7 +206,9 @@ def step (_ : Unit) (line : String) : Unit × String :=
     | "wr" :: hs => (match hs.mapM parseHex with
       | some l => toHex (l.flatMap chunk)
       | none => "bad-op")
-    | op :: tyw :: rest =>
+    | op0 :: tyw :: rest =>
+      -- `load+`, `rt+` ...: the harness loads into a pre-populated object; the result must be the same
+      let op := if op0.endsWith "+" then (op0.dropEnd 1).toString else op0
       (match tyOf tyw with
       | none => "bad-type"
       | some ty =>
